@@ -319,4 +319,212 @@ theorem search_closes (c : Cfg α) (hc : GridOk c) (n : Nat) :
         · left; rw [hj]; simpa using h
         · right; exact h
 
+
+/-! ### The liveness hypothesis cannot be dropped (Zeno), for an adversarial environment -/
+
+/-- two sites, one step `[0, 1/2]` -/
+def cz : Cfg α := ⟨2, 1, [0, 1 / 2], true⟩
+/-- the adversary: the norm collapses in every sweep; each jump redraws the threshold `1/2` -/
+def e0 : Env α := ⟨0, 1 / 2, 1⟩
+
+theorem cz_ok : GridOk (cz : Cfg α) := by
+  refine ⟨by simp [cz], by simp [Grid, cz], ?_⟩
+  intro i a b h1 h2
+  match i with
+  | 0 =>
+    simp [cz] at h1 h2
+    subst h1; subst h2; norm_num
+  | i + 1 => simp [cz] at h2
+
+theorem cz_t0 : (cz : Cfg α).times[0]? = some 0 := by simp [cz]
+theorem cz_t1 : (cz : Cfg α).times[0 + 1]? = some (1 / 2) := by simp [cz]
+
+structure Z (s : NSt α) : Prop where
+  inv : NInv (cz : Cfg α) s
+  rf : s.rf = none
+  thr : s.thr = 1 / 2
+  gap : s.gap = 1 / 2
+  step : s.base.step = 0
+
+/-- two sweeps of the adversary from a `Z` state: one more jump, same step, `Z` again -/
+theorem zeno_pair (s : NSt α) (hz : Z s) :
+    ∃ s1 s2 evs1 evs2, nstep cz s e0 = .ok (s1, evs1) ∧ nstep cz s1 e0 = .ok (s2, evs2) ∧ Z s2
+      ∧ s1.base.step = 0 ∧ (jumps (evs1 ++ evs2)).length = 1 ∧ marks (evs1 ++ evs2) = [] := by
+  have hlive : s.base.step < (cz : Cfg α).nsteps := by rw [hz.step]; simp [cz]
+  have hneg : (e0 : Env α).sq - s.thr < 0 := by rw [hz.thr]; simp [e0]
+  rcases nstep_cases cz cz_ok s e0 hz.inv hlive with ⟨err, _, hE⟩ | ⟨s1, evs1, h1, hi1, _, ho1⟩
+  · exfalso
+    rcases hE with ⟨_, _, _, hne⟩ | ⟨_, hsome, _⟩
+    · apply hne; rw [hz.gap, hz.thr]; simp [e0]
+    · rw [hz.rf] at hsome; simp at hsome
+  · cases ho1 with
+    | done _ _ _ _ _ hg _ => exact absurd hneg hg
+    | cont h0 _ _ _ _ _ _ => rw [hz.rf] at h0; simp at h0
+    | jumped h0 _ _ _ _ _ _ => rw [hz.rf] at h0; simp at h0
+    | opened _ hopen hs1 hm1 hj1 _ ht1 =>
+      have hs10 : s1.base.step = 0 := by rw [hs1, hz.step]
+      have hlive1 : s1.base.step < (cz : Cfg α).nsteps := by rw [hs10]; simp [cz]
+      have hnarrow : ∀ tk tk1 : α, (cz : Cfg α).times[s1.base.step]? = some tk →
+          (cz : Cfg α).times[s1.base.step + 1]? = some tk1 → ¬ 1 ≤ tk1 - tk := by
+        intro tk tk1 h1 h2
+        rw [hs10] at h1 h2
+        rw [cz_t0] at h1; rw [cz_t1] at h2
+        simp only [Option.some.injEq] at h1 h2
+        subst h1; subst h2; norm_num
+      rcases nstep_cases cz cz_ok s1 e0 hi1 hlive1 with ⟨err, _, hE⟩ | ⟨s2, evs2, h2, hi2, _, ho2⟩
+      · exfalso
+        rcases hE with ⟨_, hnone, _, _⟩ | ⟨_, _, tk, tk1, h1, h2, hw⟩
+        · rw [hnone] at hopen; simp at hopen
+        · exact hnarrow tk tk1 h1 h2 hw
+      · cases ho2 with
+        | done h0 _ _ _ _ _ _ => rw [h0] at hopen; simp at hopen
+        | opened h0 _ _ _ _ _ _ => rw [h0] at hopen; simp at hopen
+        | cont _ _ _ _ _ _ hw =>
+          obtain ⟨tk, tk1, h1, h2, hw⟩ := hw
+          exact absurd hw (hnarrow tk tk1 h1 h2)
+        | jumped _ hrf2 hs2 hm2 hj2 _ ht2 =>
+          refine ⟨s1, s2, evs1, evs2, h1, h2, ⟨hi2, hrf2, ?_, ?_, by rw [hs2, hs10]⟩, hs10, ?_, ?_⟩
+          · rw [ht2.1]; simp [uniform0, e0]
+          · rw [ht2.2.1]; simp [uniform0, e0]; norm_num
+          · rw [jumps_append, hj1, hj2]; rfl
+          · rw [marks_append, hm1, hm2]; rfl
+
+theorem zeno_from (n : Nat) : ∀ (s : NSt α), Z s →
+    (jumps (nrun cz (List.replicate (2 * n) e0) s).1).length = n
+      ∧ marks (nrun cz (List.replicate (2 * n) e0) s).1 = []
+      ∧ (nrun cz (List.replicate (2 * n) e0) s).2.2 = .tapeOut := by
+  induction n with
+  | zero =>
+    intro s hz
+    have : finished (cz : Cfg α) s.base = false := by simp [finished, hz.step, cz]
+    simp [nrun_nil, jumps, marks, this]
+  | succ n ih =>
+    intro s hz
+    obtain ⟨s1, s2, evs1, evs2, h1, h2, hz2, hs10, hj, hm⟩ := zeno_pair s hz
+    have hf : finished (cz : Cfg α) s.base = false := by simp [finished, hz.step, cz]
+    have hf1 : finished (cz : Cfg α) s1.base = false := by simp [finished, hs10, cz]
+    have e : List.replicate (2 * (n + 1)) (e0 : Env α) = e0 :: e0 :: List.replicate (2 * n) e0 := by
+      rw [show 2 * (n + 1) = 2 * n + 1 + 1 by ring]; rfl
+    obtain ⟨ih1, ih2, ih3⟩ := ih s2 hz2
+    rw [e, nrun_ok cz e0 _ s s1 evs1 hf h1, nrun_ok cz e0 _ s1 s2 evs2 hf1 h2]
+    simp only
+    refine ⟨?_, ?_, ih3⟩
+    · rw [← List.append_assoc, jumps_append, List.length_append, hj, ih1]; ring
+    · rw [← List.append_assoc, marks_append, hm, ih2]; rfl
+
+/-- **Zeno**: for every `n` there is an environment tape (of `2n+1` entries) along which the real
+stepping logic performs `n` jumps inside one and the same time step and completes no step. -/
+theorem zeno (n : Nat) :
+    ∃ es : List (Env α), es.length = 2 * n + 1 ∧ (jumps (nrunFromInit cz es).1).length = n
+      ∧ marks (nrunFromInit cz es).1 = [.fill 0] ∧ (nrunFromInit cz es).2 = .tapeOut := by
+  obtain ⟨s, evs, hi, hinv, hm, hj, hs, hrf, hthr, hgap⟩ :=
+    ninit_inv (cz : Cfg α) cz_ok (by simp [cz]) cz_t0 ⟨1, 1 / 2, 1⟩
+  have hz : Z s := ⟨hinv, hrf, by rw [hthr]; simp [uniform0], by rw [hgap]; simp [uniform0]; norm_num, hs⟩
+  obtain ⟨h1, h2, h3⟩ := zeno_from n s hz
+  refine ⟨⟨1, 1 / 2, 1⟩ :: List.replicate (2 * n) e0, by simp, ?_, ?_, ?_⟩
+  · simp only [nrunFromInit, hi, jumps_append, hj, List.nil_append, h1]
+  · simp only [nrunFromInit, hi, marks_append, hm, h2]; rfl
+  · simp only [nrunFromInit, hi, h3]
+
+/-- The unconditional termination claim ("the run terminates however the norm evolves"), as a
+statement about tapes: some number of sweeps always suffices. -/
+def TerminatesUnconditionally (c : Cfg α) : Prop :=
+  ∃ B : Nat, ∀ es : List (Env α), B ≤ es.length → (nrunFromInit c es).2 ≠ .tapeOut
+
+/-- **It is false** (adversarial environment). -/
+theorem unconditional_termination_false : ¬ TerminatesUnconditionally (cz : Cfg α) := by
+  rintro ⟨B, hB⟩
+  obtain ⟨es, hlen, _, _, hst⟩ := zeno (α := α) B
+  exact hB es (by omega) hst
+
+/-! ### The `BrentsRootFinder` constructor assert: exactly the gap-zero histories (D10) -/
+
+/-- what `random.uniform(0, b)` and a squared norm guarantee -/
+def EnvOk (e : Env α) : Prop := 0 ≤ e.u ∧ e.u ≤ 1 ∧ 0 ≤ e.psq
+
+/-- If a run dies on the constructor assert, the gap stored at the last step boundary (or after
+the last jump) was **exactly zero** — for every tape whose uniform draws are in `[0, 1]`. -/
+theorem brentInit_only_if_gap_zero (c : Cfg α) (hc : GridOk c) :
+    ∀ (es : List (Env α)) (s : NSt α), NInv c s → (s.rf = none → 0 ≤ s.gap) → (∀ e ∈ es, EnvOk e) →
+      (nrun c es s).2.2 = .err .brentInit →
+      (nrun c es s).2.1.rf = none ∧ (nrun c es s).2.1.gap = 0
+  | [], s, _, _, _, h => by rw [nrun_nil] at h; split at h <;> simp at h
+  | e :: es, s, hi, hg, henv, h => by
+    by_cases hfin : finished c s.base = true
+    · rw [nrun_finished c e es s hfin] at h; simp at h
+    · have hf' : finished c s.base = false := by simpa using hfin
+      have hlive := (not_finished_iff c s.base).mp hf'
+      rcases nstep_cases c hc s e hi hlive with ⟨err, hs, hE⟩ | ⟨s1, evs, hs, hi1, _, ho⟩
+      · rw [nrun_error c e es s err hf' hs] at h ⊢
+        simp only [Status.err.injEq] at h
+        subst h
+        rcases hE with ⟨_, hnone, hneg, hne⟩ | ⟨h', _⟩
+        · refine ⟨hnone, ?_⟩
+          have h0 := hg hnone
+          rcases eq_or_lt_of_le h0 with h1 | h1
+          · exact h1.symm
+          · exact absurd (mul_neg_of_pos_of_neg h1 hneg) hne
+        · simp at h'
+      · rw [nrun_ok c e es s s1 evs hf' hs] at h ⊢
+        simp only at h ⊢
+        apply brentInit_only_if_gap_zero c hc es s1 hi1 ?_ (fun e' he' => henv e' (by simp [he'])) h
+        intro hrf1
+        cases ho with
+        | done _ _ _ _ _ hge ht => rw [ht.2]; exact not_lt.mp hge
+        | opened _ h1 _ _ _ _ _ => rw [hrf1] at h1; simp at h1
+        | cont _ h1 _ _ _ _ _ => rw [hrf1] at h1; simp at h1
+        | jumped _ _ _ _ _ _ ht =>
+          obtain ⟨hu0, hu1, hp⟩ := henv e (by simp)
+          rw [ht.2.1]
+          unfold uniform0
+          have : e.psq - (0 + (e.psq - 0) * e.u) = e.psq * (1 - e.u) := by ring
+          rw [this]
+          exact mul_nonneg hp (by linarith)
+
+/-- **Defect D10, as a theorem about the model (= the code, by correspondence)**: two sites, grid
+0, 10, 20, 30; threshold 1/4; the squared norm is exactly 1/4 at t = 10 (gap 0: the step completes)
+and 1/16 at t = 20 (gap < 0: a search is opened with `f_start = 0`): `assert fa*fb < 0` fails. -/
+theorem gap_zero_at_boundary_asserts :
+    (nrunFromInit (α := ℚ) ⟨2, 3, [0, 10, 20, 30], true⟩
+      [⟨1, 1 / 4, 1⟩, ⟨1 / 4, 1 / 2, 1⟩, ⟨1 / 16, 1 / 2, 1⟩]).2 = .err .brentInit := by
+  decide +kernel
+
+/-- "no history trips the constructor assert", and its refutation -/
+def NeverBrentInit (c : Cfg ℚ) : Prop := ∀ es : List (Env ℚ), (nrunFromInit c es).2 ≠ .err .brentInit
+
+theorem no_assert_counterexample : ¬ NeverBrentInit ⟨2, 3, [0, 10, 20, 30], true⟩ :=
+  fun h => h _ gap_zero_at_boundary_asserts
+
+/-! ### Non-vacuity -/
+
+example : GridOk (⟨3, 3, [0, 10, 20, 30], true⟩ : Cfg ℚ) := by
+  refine ⟨by simp, by simp [Grid], ?_⟩
+  intro i a b h1 h2
+  match i with
+  | 0 => simp at h1 h2; subst h1; subst h2; norm_num
+  | 1 => simp at h1 h2; subst h1; subst h2; norm_num
+  | 2 => simp at h1 h2; subst h1; subst h2; norm_num
+  | i + 3 => simp at h2
+
+/-- the forced-bisection guard holds from step 1 on for the uniform 10 ns grid (16 = 2^(3+1)) -/
+example : ForcedGrid (⟨3, 3, [0, 10, 20, 30], true⟩ : Cfg ℚ) 1 3 := by
+  intro k tk tk1 hk h1 h2
+  match k with
+  | 0 => omega
+  | 1 => simp at h1 h2; subst h1; subst h2; norm_num
+  | 2 => simp at h1 h2; subst h1; subst h2; norm_num
+  | k + 3 => simp at h2
+
+/-- … and fails for the first step (bracket touching 0): this is what is left open -/
+example : ¬ ForcedGrid (⟨3, 3, [0, 10, 20, 30], true⟩ : Cfg ℚ) 0 3 := by
+  intro h
+  have := (h 0 0 10 (le_refl _) (by simp) (by simp)).1
+  exact lt_irrefl _ this
+
+/-- a concrete run with a jump: 3 sites, the search converges after 4 bisections and the run is `done` -/
+example : ((nrunFromInit (α := ℚ) ⟨3, 2, [0, 10, 20], true⟩
+      ([⟨1, 1 / 2, 1⟩, ⟨9 / 10, 1 / 2, 1⟩, ⟨2 / 5, 1 / 2, 1⟩, ⟨3 / 5, 1 / 2, 1⟩, ⟨2 / 5, 1 / 2, 1⟩,
+        ⟨3 / 5, 1 / 2, 1⟩, ⟨2 / 5, 1 / 2, 1⟩, ⟨3 / 5, 1 / 2, 1⟩, ⟨4 / 5, 1 / 4, 1⟩, ⟨4 / 5, 1 / 4, 1⟩])).2
+      = .done) := by decide +kernel
+
 end EmuVerif.Props.C18
